@@ -14,13 +14,13 @@ s = open(p).read()
 start = s.index("## 9. Seeded changes")
 head = s[:start]
 body = ("## 9. Seeded changes and which check catches them\n\n"
-        "58 changes (two per property; a second round of eight aimed at the memory clauses and the unchecked index / SWAR code; a third round of twelve asked to avoid the mechanisms of round one), each written by a fresh sub-agent that saw only the property text, each confirmed\n"
+        "68 changes (two per property; a second round of eight aimed at the memory clauses and the unchecked index / SWAR code; a third and a fourth round of twelve and ten asked to avoid the mechanisms already used), each written by a fresh sub-agent that saw only the property text, each confirmed\n"
         "independently (demo passes clean / fails patched / pinned suite passes patched) before being kept in `seeded/`.\n"
-        "57 are reported by the quick tier of the check of the property they target; C19-B is not, because under the\n"
-        "reading of the statement that the unchanged tree satisfies it is not a violation (see its row).  Nine were MISSED\n"
+        "67 are reported by the quick tier of the check of the property they target; C19-B is not, because under the\n"
+        "reading of the statement that the unchanged tree satisfies it is not a violation (see its row).  Eleven were MISSED\n"
         "by the first version of a check and led to a stronger workload or monitor (C02-A: M-return watchdog; C05-A:\n"
         "far-sticky-digit placements; C09-B: integer sweep over every radix; C13-A: formats whose mantissa radix is\n"
-        "smaller than the exponent radix; C17-A: hostile options offered to the builder; C09m-A: power-of-two-only build + immediate canary reports; C10m-A: multi-digit integer options; C12x-A: finer format trait in the known-finding signatures; C16x-B: no-std compact build in the quick tier).  A stricter C19 oracle tried for\n"
+        "smaller than the exponent radix; C17-A: hostile options offered to the builder; C09m-A: power-of-two-only build + immediate canary reports; C10m-A: multi-digit integer options; C12x-A: finer format trait in the known-finding signatures; C16x-B: no-std compact build in the quick tier; C11y-A: root-cause recogniser instead of a trait-keyed finding; C15y-B: sign of a parsed zero judged under C15).  A stricter C19 oracle tried for\n"
         "C19-B raised alarms on the unchanged tree (also seen by `vp check`) and was withdrawn.\n\n" + table + "\n")
 open(p, "w").write(head + body)
 print(len(rows), "rows")
